@@ -124,6 +124,31 @@ var c01HostileStrings = []string{
 	`tcp://`, `http://`, `git@`, `://`, `docker-image://`, `file:///etc/passwd`, `2001-01-01`, `12:30:45`,
 }
 
+type c01Frag struct {
+	name string
+	frag map[string]any
+}
+
+// c01ComboFragments: service attributes that some later stage reads together with another one.
+func c01ComboFragments() []c01Frag {
+	m := kvm
+	return []c01Frag{
+		{"mem_limit", m("mem_limit", "64m")}, {"mem_reservation", m("mem_reservation", "32m")}, {"cpus", m("cpus", 0.5)}, {"pids_limit", m("pids_limit", 10)},
+		{"scale", m("scale", 2)}, {"container_name", m("container_name", "cn")},
+		{"deploy", m("deploy", m())}, {"deploy.replicas", m("deploy", m("replicas", 2))}, {"deploy.resources", m("deploy", m("resources", m()))},
+		{"limits.cpus", m("deploy", m("resources", m("limits", m("cpus", "0.5"))))}, {"limits.memory", m("deploy", m("resources", m("limits", m("memory", "64m"))))},
+		{"limits.pids", m("deploy", m("resources", m("limits", m("pids", 10))))}, {"limits.empty", m("deploy", m("resources", m("limits", m())))},
+		{"reservations.memory", m("deploy", m("resources", m("reservations", m("memory", "32m"))))}, {"reservations.cpus", m("deploy", m("resources", m("reservations", m("cpus", "0.25"))))},
+		{"reservations.devices", m("deploy", m("resources", m("reservations", m("devices", []any{m("capabilities", []any{"gpu"}), m("capabilities", []any{"gpu"}, "count", "all")}))))},
+		{"gpus", m("gpus", "all")}, {"network_mode", m("network_mode", "service:other")}, {"networks", m("networks", m("net", m("aliases", []any{"a"})))},
+		{"depends_on", m("depends_on", m("other", m("condition", "service_started", "required", false)))}, {"links", m("links", []any{"other:alias"})}, {"volumes_from", m("volumes_from", []any{"other:ro"})},
+		{"ipc", m("ipc", "service:other")}, {"pid", m("pid", "service:other")}, {"profiles", m("profiles", []any{"p"})},
+		{"build", m("build", m("context", ".", "secrets", []any{"sec"}))}, {"build.inline", m("build", m("dockerfile_inline", "FROM x"))}, {"build.dockerfile", m("build", m("dockerfile", "D"))},
+		{"secrets", m("secrets", []any{"sec"})}, {"configs", m("configs", []any{m("source", "cfg", "mode", 288)})}, {"volumes", m("volumes", []any{"vol:/v", "./b:/b:ro"})},
+		{"env_file", m("env_file", []any{m("path", "nothere.env", "required", false)})}, {"ports", m("ports", []any{"80", "8080-8081:80-81/udp"})}, {"extends", m("extends", m("service", "other"))},
+	}
+}
+
 func c01SchemaCaseLeaf(p schemaPath, leaf any, kindName string, position string) (c01Case, bool) {
 	segs := p.Segs
 	cs := c01Case{Path: p.String(), Kind: kindName, Position: position}
@@ -645,6 +670,32 @@ func TestC01(t *testing.T) {
 		}
 		cs.What = "string-shape"
 		return cs
+	}, c01Check, true)
+
+	// (1c) combinations of the attributes that the consistency rules and the normalisation relate to each other:
+	// every subset of up to three of them on one service (each value valid on its own)
+	combo := c01ComboFragments()
+	var subsets [][]int
+	for i := range combo {
+		subsets = append(subsets, []int{i})
+		for j := i + 1; j < len(combo); j++ {
+			subsets = append(subsets, []int{i, j})
+			for k := j + 1; k < len(combo); k++ {
+				subsets = append(subsets, []int{i, j, k})
+			}
+		}
+	}
+	c.Extra("attribute_combinations", map[string]any{"fragments": len(combo), "subsets_up_to_3": len(subsets)})
+	RunEnum(c, t, "attribute-combinations", len(subsets), func(i int) c01Case {
+		svc := map[string]any{"image": "busybox"}
+		var names []string
+		for _, k := range subsets[i] {
+			mergeInto(svc, cloneTree(combo[k].frag).(map[string]any))
+			names = append(names, combo[k].name)
+		}
+		doc := map[string]any{"services": map[string]any{"svc": svc, "other": map[string]any{"image": "busybox"}},
+			"networks": map[string]any{"net": nil}, "volumes": map[string]any{"vol": nil}, "secrets": map[string]any{"sec": map[string]any{"environment": "S"}}, "configs": map[string]any{"cfg": map[string]any{"content": "c"}}}
+		return c01Case{What: "attribute-combination", Path: strings.Join(names, "+"), Load: loadCase{Files: []memFile{{Name: "compose.yaml", Content: emitYAML(doc, nil)}}, Main: []string{"compose.yaml"}, Env: map[string]string{"S": "v"}}}
 	}, c01Check, true)
 
 	// (3) reference cycles
